@@ -321,6 +321,9 @@ def run(rep):
     check_mapkey(rep, exm, hm, cross)
     rep.absorb(exm)
     check_string_relational(rep, cross, 2 if rep.tier == 'quick' else 3)
+    check_string_number_equality(rep, cross, 3 if rep.tier == 'quick' else 5)
+    check_update_tonumber(rep, cross)
+    check_scope_exits(rep)
     rep.cross = driver.cross_check(cross, 300, 'ALL', rep.tier, rep.seed)
     rep.extra['cross_checked_obligations'] = len(cross)
 
@@ -329,8 +332,9 @@ def replay_file(path):
     d = json.load(open(path))
     o = driver.replay([{'cmd': 'eval', 'src': d['src']}])[0]
     got = vmarms.reply_value(o)
-    print('%s -> %r (expected %s)' % (d['src'], got, d.get('expected')))
-    return 0 if repr(got) == str(d.get('expected')) else 1
+    v = o.get('value', {}).get('v') if isinstance(o.get('value'), dict) else None
+    print('%s -> %r (expected %s)' % (d['src'], v if v is not None else got, d.get('expected')))
+    return 0 if (repr(got) == str(d.get('expected')) or v == d.get('expected')) else 1
 
 
 # ------------------------------------------------------------------------------------------------
@@ -354,6 +358,227 @@ def lex_lt(a, b):
         res = z3.If(both, z3.If(a.bytes[i] == b.bytes[i], res, z3.ULT(a.bytes[i], b.bytes[i])),
                     z3.And(z3.UGE(bv(i), a.n), z3.ULT(bv(i), b.n)))
     return res
+
+
+KF_BREAK = 'C01/block-scope/break-or-continue-leaves-the-scope-open'
+SCOPE_PROGRAMS = [
+    # (program, expected completion value, key)
+    ("let q = 'outer'; while (true) { let q = 'inner'; break } q", 'outer', KF_BREAK),
+    ("let q = 'outer'; l: { let q = 'inner'; break l } q", 'outer', KF_BREAK),
+    ("function f(){ let q = 'outer'; switch (1) { case 1: let q = 'inner'; break } return q } f()", 'outer', KF_BREAK),
+    ("let q = 'outer'; for (let i = 0; i < 2; i++) { let q = 'inner'; continue } q", 'outer', 'C01/block-scope/continue'),
+    ("function f(){ let q = 'outer'; { let q = 'inner'; if (q) return (() => q)() } } f()", 'inner', 'C01/block-scope/return'),
+    ("function f(){ let q = 'outer'; for (const x of [1]) { let q = 'inner'; if (x) break } return q } f()", 'outer', 'C01/block-scope/for-of-break'),
+    ("let q = 'outer'; try { let q = 'inner'; throw 1 } catch (e) { } q", 'outer', 'C01/block-scope/throw'),
+    ("let r = []; for (let i = 0; i < 3; i++) { r.push(() => i) } r.map(f => f()).join(',')", '0,1,2', 'C01/block-scope/per-iteration-binding'),
+]
+
+
+def check_scope_exits(rep):
+    """replay route only (no kernel: neither the compiler nor Op::Break/Op::Continue know a scope depth, so there is nothing to encode):
+    a block scope is left on every exit - normal completion, break, continue, return, throw"""
+    outs = driver.replay([{'cmd': 'eval', 'src': p_} for p_, _, _ in SCOPE_PROGRAMS])
+    for (src, want, key), o in zip(SCOPE_PROGRAMS, outs):
+        rep.validated += 1
+        got = vmarms.reply_value(o)
+        v = o.get('value', {}).get('v') if isinstance(o.get('value'), dict) else None
+        if v != want:
+            p = rep.write_replay('scope-%s' % key.split('/')[-1][:14], {'cmd': 'eval', 'src': src, 'expected': want, 'observed': o})
+            rep.violation(key, '%s evaluates to %r, ECMAScript: %r (a block scope stays installed after the exit)' % (src, v if v is not None else got, want), p)
+
+
+KF_UPDATE = 'C01/compile_update_expression/no-tonumber'
+
+
+def check_update_tonumber(rep, cross):
+    """`x++`, `x--`, `++x`, `--x` on a variable or a property work on ToNumber(old value): in the code Compiler::compile_update_expression
+    emits, the Add/Sub that produces the new value is preceded by a Plus (ToNumber) on the loaded value, and a postfix form copies the
+    value it returns only after that conversion.  (What Plus/Add/Sub do with primitives is the arm kernel above.)"""
+    from . import astb
+    ex = common.executor(unwind=3)
+    astb.install_rc_models(ex)
+    astb.BuilderStub(ex)
+    ex.havoc(r'^Compiler::(?!compile_update_expression$)', only_if=lambda e, s, c: True)
+    ex.havoc(r'^Expression::without_type_wrappers$', only_if=lambda e, s, c: False)
+    fn = common.fn_name(ex, 'Compiler', 'compile_update_expression')
+    opn = ex.enum_variants('Op')
+    n_paths = 0
+    for shape in ('identifier', 'member'):
+        for opi, opname in enumerate(ex.enum_variants('UpdateOp')):
+            st = State()
+            ab = astb.AB(ex, st)
+            if shape == 'identifier':
+                x = ab.enum('Expression', 'Identifier', ab.ident('x'))
+            else:
+                mem = ab.struct('MemberExpression', object=ab.rc(EnumV('Expression', z3.BitVec('obj_kind', 64), {}, lazy=True, nm='$obj')),
+                                property=ab.enum('MemberProperty', 'Identifier', ab.ident('p')), computed=Bool(z3.BoolVal(False)), optional=Bool(z3.BoolVal(False)))
+                st.assume(z3.ULT(z3.BitVec('obj_kind', 64), len(ex.enum_variants('Expression'))))
+                x = ab.enum('Expression', 'Member', ab.box(mem))
+            prefix = z3.Bool('upd_prefix')
+            u = ab.struct('UpdateExpression', operator=EnumV('UpdateOp', opi, {}), argument=ab.rc(x), prefix=Bool(prefix))
+            dst = z3.BitVec('dst', 8)
+            st.assume(z3.UGE(dst, 16))          # the destination is not one of the temporaries the stub hands out (0, 1, 2, ...)
+            comp = st.alloc(Agg('struct', 'Compiler', {}, lazy=True))
+            ex.call_function(st, fn, [Ref(comp), ab.ref(u), Int(dst, False)])
+            ends = ex.run(st, max_paths=4000)
+            for k, e in enumerate(ends):
+                if e.status != 'return':
+                    rep.inconc('compile_update_expression(%s %s): %s %s' % (shape, opname, e.status, e.detail[:120]))
+                    continue
+                if not (isinstance(e.value, EnumV) and e.value.discr == 0):
+                    continue          # Err from an abstracted callee
+                n_paths += 1
+                emits = [ev[1] for ev in e.st.events if ev[0] == 'emit' and isinstance(ev[1], EnumV) and isinstance(ev[1].discr, int)]
+                names = [opn[o.discr] for o in emits]
+                arith = [i for i, nme in enumerate(names) if nme in ('Add', 'Sub')]
+                conds = []
+                if len(arith) != 1:
+                    conds.append(z3.BoolVal(False))
+                else:
+                    ai = arith[0]
+                    a = emits[ai].payload[emits[ai].discr]
+                    # fields: dst, left, right
+                    left = a[1].e
+                    plus = [i for i in range(ai) if names[i] == 'Plus']
+                    okp = [z3.And(emits[i].payload[emits[i].discr][0].e == left, emits[i].payload[emits[i].discr][1].e == left) for i in plus]
+                    conds.append(z3.Or(okp) if okp else z3.BoolVal(False))
+                    conds.append(left == dst)
+                    # postfix: the copy that is returned is taken after the conversion
+                    moves = [i for i in range(ai) if names[i] == 'Move' and plus and i < plus[0]]
+                    for i in moves:
+                        mv = emits[i].payload[emits[i].discr]
+                        conds.append(z3.Not(z3.And(mv[1].e == dst, mv[0].e != dst)))      # no copy of the unconverted value out of dst
+                g = z3.And(conds)
+                r, m = ex.check_sat_pc(e.st.pc, [z3.Not(g)])
+                what = 'compile_update_expression(%s, %s) path %d: ToNumber (Plus) on the loaded value precedes the Add/Sub and the postfix copy' % (shape, opname, k)
+                rep.obligation(what, r, 'identifier or member target, prefix/postfix symbolic, any destination register >= 16', 0.0, detail=names if r != 'unsat' else None)
+                if r == 'unsat':
+                    cross.append((what, list(e.st.pc) + [z3.Not(g)], 'unsat'))
+                elif not rep.seen(KF_UPDATE):
+                    progs = ['let s = "5"; s++; s', 'let s = "5"; s++', 'let o = {p: "5"}; ++o.p', 'let s = "5"; s--; s']
+                    want = [6.0, 5.0, 6.0, 4.0]
+                    outs = driver.replay([{'cmd': 'eval', 'src': x_} for x_ in progs])
+                    rep.validated += len(outs)
+                    got = [vmarms.reply_value(o) for o in outs]
+                    bad = [(p_, g_, w_) for p_, g_, w_ in zip(progs, got, want) if g_ != w_]
+                    if bad:
+                        p = rep.write_replay('update-tonumber', {'cmd': 'eval', 'src': bad[0][0], 'expected': bad[0][2], 'observed': repr(bad[0][1]), 'emitted': names})
+                        rep.violation(KF_UPDATE, '%s evaluates to %r, ECMAScript: %r (++/-- apply ToNumber to the old value first); emitted ops %r' % (bad[0][0], bad[0][1], bad[0][2], names), p)
+                    else:
+                        rep.inconc('%s: the emitted sequence %r lacks the conversion but the witness programs agree with ECMAScript' % (what, names))
+    if n_paths == 0:
+        rep.inconc('compile_update_expression: no Ok path examined (vacuity)')
+    rep.vacuity.append('compile_update_expression: %d Ok paths' % n_paths)
+    rep.sample({'kernel': 'compile_update_expression ToNumber', 'paths': n_paths})
+    rep.absorb(ex)
+
+
+KF_EQSTR = 'C01/execute_op/loose-equality-number-string'
+EQ_PROBES = ['', ' 1 ', '0x10', 'inf', '  ', '1', 'a', '1e3', '+5', 'Infinity', '-0', '0b11', '\n7']
+
+
+def check_string_number_equality(rep, cross, cap=3):
+    """`n == s` and `s == n` (also through a boolean operand) compare n with ToNumber(s), where ToNumber of a string is the
+    interpreter's own value::string_to_number - the function behind `+s`, Number(s) and arithmetic.  Both the conversion and Rust's
+    str::parse::<f64> are uninterpreted functions of the string CONTENT here: the obligation is that the operator uses the former
+    for every string (what string_to_number computes is C15's neighbourhood and not decided)."""
+    from emir.strings import s_model_bytes
+    s2n = z3.Function('string_to_number', z3.BitVecSort(16), *([z3.BitVecSort(8)] * cap + [z3.FPSort(11, 53)]))
+    p_ok = z3.Function('rust_parse_f64_ok', z3.BitVecSort(16), *([z3.BitVecSort(8)] * cap + [z3.BoolSort()]))
+    p_val = z3.Function('rust_parse_f64_value', z3.BitVecSort(16), *([z3.BitVecSort(8)] * cap + [z3.FPSort(11, 53)]))
+
+    def key_of(v):
+        bs = list(v.bytes[:cap]) + [z3.BitVecVal(0, 8)] * (cap - len(v.bytes[:cap]))
+        # bytes beyond the length are normalised to 0 so that equal contents give equal keys
+        return [z3.ZeroExt(16 - v.n.size(), v.n) if v.n.size() < 16 else v.n] + [z3.If(z3.ULT(z3.BitVecVal(i, v.n.size()), v.n), b, z3.BitVecVal(0, 8)) for i, b in enumerate(bs)]
+
+    from emir.models import deref2
+
+    def h_s2n(e, s, c):
+        v = deref2(e, s, c.args[0])
+        if not isinstance(v, Str):
+            return None
+        e.havoc_used.add('value::string_to_number (uninterpreted function of the string content)')
+        return e.ret(s, c, Float(s2n(*key_of(v))))
+
+    def h_parse(e, s, c):
+        v = deref2(e, s, c.args[0])
+        if isinstance(v, Opaque) and ('jsstr', str(v.id)) in s.extra:
+            v = s.extra[('jsstr', str(v.id))]
+        if not isinstance(v, Str) or 'f64' not in c.callee:
+            return None
+        e.havoc_used.add('str::parse::<f64> (uninterpreted function of the string content)')
+        k = key_of(v)
+        d = z3.If(p_ok(*k), z3.BitVecVal(0, 64), z3.BitVecVal(1, 64))
+        return e.ret(s, c, EnumV('Result', d, {0: {0: Float(p_val(*k))}, 1: {0: Opaque('ParseFloatError')}}))
+    for name, neg in (('Eq', False), ('NotEq', True)):
+        for order in ('number-string', 'string-number', 'boolean-string'):
+            ex = common.executor(unwind=cap + 4, str_cap=cap)
+            h = vmarms.ArmHarness(ex, rep)
+            ex.overrides.insert(0, (re.compile(r'^value::string_to_number$|^string_to_number$'), h_s2n))
+            ex.overrides.insert(0, (re.compile(r'^str::parse$|^JsString::parse$|^<f64 as FromStr>::from_str$'), h_parse))
+            st = State()
+            sa = ex.fresh_str(st, cap, 'eqs')
+            ta = Opaque('JsString', z3.Int('$eqs_tok'))
+            st.extra[('jsstr', str(ta.id))] = sa
+            nbits = z3.BitVec('eqn_bits', 64)
+            b = z3.Bool('eqb')
+            num = EnumV('JsValue', 3, {3: {0: Float(z3.fpBVToFP(nbits, F64))}})
+            boo = EnumV('JsValue', 2, {2: {0: Bool(b)}})
+            strv = EnumV('JsValue', 4, {4: {0: ta}})
+            l, r_ = {'number-string': (num, strv), 'string-number': (strv, num), 'boolean-string': (boo, strv)}[order]
+            regs = [EnumV('JsValue', 0, {}), l, r_, EnumV('JsValue', 0, {})]
+            vm = Agg('struct', 'BytecodeVM', {2: VecV(regs, 'JsValue')}, lazy=True)
+            a_vm = st.alloc(vm)
+            a_in = st.alloc(Agg('struct', 'Interpreter', {}, lazy=True))
+            vi = ex.variant_index('Op', name)
+            op = EnumV('Op', vi, {vi: {0: Int(z3.BitVecVal(0, 8), False), 1: Int(z3.BitVecVal(1, 8), False), 2: Int(z3.BitVecVal(2, 8), False)}})
+            ex.call_function(st, h.fn, [Ref(a_vm), Ref(a_in), op])
+            ends = ex.run(st)
+            label = 'arm %s on %s' % (name, order)
+            if not common.require_clean(rep, ends, label):
+                rep.absorb(ex)
+                continue
+            nfp = z3.fpBVToFP(nbits, F64) if order != 'boolean-string' else z3.If(b, z3.FPVal(1.0, F64), z3.FPVal(0.0, F64))
+            want = z3.fpEQ(nfp, s2n(*key_of(sa)))
+            if neg:
+                want = z3.Not(want)
+            for k, e in enumerate(ends):
+                res = h.result_reg(e, a_vm)
+                g = res.payload[2][0].e == want if (isinstance(res.discr, int) and res.discr == 2) else z3.BoolVal(False)
+                t = time.time()
+                r, m = ex.check_sat_pc(e.st.pc, [z3.Not(g)])
+                what = '%s path %d: the result is n == ToNumber(s) with the interpreter\'s own string_to_number' % (label, k)
+                rep.obligation(what, r, 'strings <= %d bytes (any bytes < 128), every f64 / boolean' % cap, time.time() - t)
+                if r == 'unsat':
+                    cross.append((what, list(e.st.pc) + [z3.Not(g)], 'unsat'))
+                elif not rep.seen(KF_EQSTR):
+                    # the two conversions are uninterpreted, so the solver's string need not be one on which they really differ: probe
+                    probes = [s_model_bytes(m, sa).decode('latin-1')] + EQ_PROBES
+                    srcs = []
+                    for ps in probes:
+                        srcs.append('[%s == (+%s), (+%s) == %s, +%s]' % (json.dumps(ps), json.dumps(ps), json.dumps(ps), json.dumps(ps), json.dumps(ps)))
+                    outs = driver.replay([{'cmd': 'eval', 'src': 'JSON.stringify(%s.map(x => typeof x === "number" ? String(x) : x))' % x} for x in srcs])
+                    rep.validated += len(outs)
+                    bad = []
+                    for ps, o in zip(probes, outs):
+                        try:
+                            a1, a2, nv = json.loads(o['value']['v'])
+                        except Exception:
+                            continue
+                        expect = nv != 'NaN'       # x == x for every non-NaN number
+                        if a1 != expect or a2 != expect:
+                            bad.append((ps, a1, a2, nv))
+                    if bad:
+                        ps, a1, a2, nv = bad[0]
+                        p = rep.write_replay('eq-number-string', {'cmd': 'eval', 'src': '%s == (+%s)' % (json.dumps(ps), json.dumps(ps)), 'string': ps, 'to_number': nv,
+                                                                   'string_eq_number': a1, 'number_eq_string': a2, 'all_differing_probes': bad})
+                        rep.violation(KF_EQSTR, '%s == (+%s) evaluates to %r although +%s is %s: loose equality does not use the interpreter\'s ToNumber for strings (differing probes: %r)' % (
+                            json.dumps(ps), json.dumps(ps), a1, json.dumps(ps), nv, [b_[0] for b_ in bad]), p)
+                    else:
+                        rep.inconc('%s: the operator does not go through string_to_number but none of the probe strings shows a difference' % what)
+            rep.sample({'kernel': 'execute_op %s' % label, 'paths': len(ends)})
+            rep.absorb(ex)
 
 
 def check_string_relational(rep, cross, cap=2):
